@@ -206,6 +206,19 @@ class C05(Property):
             {"kind": "pl", "n": 3, "maxage": 100, "scripts": [[[0, 0], [0, 0], [0, 0], [1, 0], [1, 0], [2, 150], [1, 0], [2, 50], [0, 0], [0, 0], [0, 0], [0, 0]], [[0, 0]]], "sched": [0] * 11 + [1, 0, 1]},
             # the same with a resource still fresh under the returned one (only the bottom is stale)
             {"kind": "pl", "n": 3, "maxage": 100, "scripts": [[[0, 0], [0, 0], [0, 0], [1, 0], [2, 80], [1, 0], [2, 80], [1, 0], [0, 0], [0, 0], [0, 0], [0, 0]]], "sched": [0] * 12},
+            # -- seed C05-10: the VALUES of pooled resources are the user's business (a resource is the k-th create()):
+            #    equal strings / equal structs / the same int / struct{}{} / one shared pointer; two borrowed together,
+            #    returned while the other one is idle; then Gets up to the limit must all be served
+            {"kind": "pl", "n": 2, "maxage": 0, "vp": 2, "scripts": [[[0, 0], [0, 0], [1, 0], [1, 0], [0, 0], [0, 0], [1, 0], [0, 0]]], "sched": [0] * 10},
+            {"kind": "pl", "n": 3, "maxage": 0, "vp": 1, "scripts": [[[0, 0], [0, 0], [1, 0], [1, 0], [0, 0]], [[0, 0], [1, 0], [0, 0], [0, 0]]], "sched": [0, 0, 1, 0, 1, 0, 1, 1, 0, 1, 1]},
+            {"kind": "pl", "n": 2, "maxage": 0, "vp": 7, "scripts": [[[0, 0], [0, 0], [1, 0], [1, 0], [0, 0], [0, 0], [1, 0], [0, 0]]], "sched": [0] * 10},
+            {"kind": "pl", "n": 3, "maxage": 0, "vp": 8, "scripts": [[[0, 0], [0, 0], [0, 0], [1, 0], [1, 0], [1, 0], [0, 0], [0, 0], [0, 0]]], "sched": [0] * 12},
+            {"kind": "pl", "n": 2, "maxage": 0, "vp": 9, "scripts": [[[0, 0], [0, 0], [1, 0], [1, 0], [0, 0], [0, 0]]], "sched": [0] * 8},
+            # never equal (NaN) and uncomparable values (slices, maps, funcs: == on them panics), with expiry
+            {"kind": "pl", "n": 2, "maxage": 100, "vp": 3, "scripts": [[[0, 0], [0, 0], [1, 0], [2, 500], [1, 0], [0, 0], [0, 0]], [[0, 0]]], "sched": [0] * 8 + [1, 0, 1]},
+            {"kind": "pl", "n": 2, "maxage": 0, "vp": 4, "scripts": [[[0, 0], [0, 0], [1, 0], [1, 0], [0, 0], [0, 0]]], "sched": [0] * 8},
+            {"kind": "pl", "n": 2, "maxage": 100, "vp": 5, "scripts": [[[0, 0], [1, 0], [2, 500], [0, 0], [0, 0], [1, 0], [1, 0], [0, 0]]], "sched": [0] * 10},
+            {"kind": "pl", "n": 2, "maxage": 0, "vp": 6, "scripts": [[[0, 0], [1, 0]], [[0, 0], [1, 0], [0, 0], [0, 0]]], "sched": [0, 1, 0, 1, 0, 1, 1, 1, 1]},
             # -- seed C05-3: a handler behind MaxConns takes the connection over (http.Hijacker); the connection
             #    is closed twice (legal), the second time while another request is inside; then the route is
             #    loaded up to the cap: the probe must be refused
@@ -362,7 +375,7 @@ class C05(Property):
         first = list(range(nt))
         rng.shuffle(first)
         rest = [rng.randrange(nt) for _ in range(rng.randint(nt, 4 * nt))]
-        return {"kind": "pl", "n": n, "maxage": rng.choice([0, 0, 100]), "scripts": scripts, "sched": first + rest}
+        return self._value_policy(rng, {"kind": "pl", "n": n, "maxage": rng.choice([0, 0, 100]), "scripts": scripts, "sched": first + rest})
 
     def _pool_phases(self, rng):
         """grow - drain - (expire) - refill, several times on one long-lived pool"""
@@ -379,7 +392,7 @@ class C05(Property):
             scripts.append([list(o) for o in s[:10]])
         total = sum(len(s) for s in scripts)
         sched = [rng.randrange(nt) for _ in range(rng.randint(total, 2 * total))]
-        return {"kind": "pl", "n": n, "maxage": 100, "scripts": scripts, "sched": sched}
+        return self._value_policy(rng, {"kind": "pl", "n": n, "maxage": 100, "scripts": scripts, "sched": sched})
 
     def _pool_stale_put(self, rng):
         """seed C05-4 class: a Put (or several) while idle resources are stale - all of them, or only the
@@ -403,6 +416,37 @@ class C05(Property):
             at = sorted(rng.sample(range(len(s)), 2))
             sched = sched[:at[0]] + [1] + sched[at[0]:at[1]] + [1] + sched[at[1]:]
         return {"kind": "pl", "n": n, "maxage": 100, "scripts": scripts, "sched": sched}
+
+    @staticmethod
+    def _value_policy(rng, c):
+        """what create() returns: mostly the distinct ints, else equal / never-equal / uncomparable values; the
+        indistinguishable ones (7-9) only where the executor's shadow of the idle stack is exact"""
+        if rng.random() < 0.55:
+            return c
+        simple = len(c["scripts"]) == 1 and c.get("maxage", 0) <= 0 and not c.get("ns") \
+            and not any(o[0] == 4 for sc in c["scripts"] for o in sc)
+        c["vp"] = rng.choice([1, 1, 2, 2, 3, 4, 5, 6] + ([7, 7, 8, 8, 9, 9] if simple else []))
+        return c
+
+    def _pool_values(self, rng):
+        """seed C05-10 class: several resources out at once, returned while others sit idle (so that equal-valued
+        ones meet on the idle stack), then Gets up to the limit and one more"""
+        n = rng.choice([2, 2, 3, 3, 4])
+        if rng.random() < 0.5:      # one user
+            m = rng.randint(2, n)
+            s = [[0, 0]] * m + [[1, 0]] * m + [[0, 0]] * n + [[1, 0]] * rng.randint(0, 2) + [[0, 0]] * rng.randint(0, 2)
+            c = {"kind": "pl", "n": n, "maxage": 0, "scripts": [[list(o) for o in s]], "sched": [0] * (len(s) + 2)}
+            c["vp"] = rng.choice([1, 2, 7, 8, 9, 7, 8, 9, 3, 4])
+            return c
+        nt = rng.randint(2, 3)
+        scripts = []
+        for _ in range(nt):
+            k = rng.randint(1, 2)
+            scripts.append([[0, 0]] * k + [[1, 0]] * k + [[0, 0]] * rng.randint(0, 2))
+        total = sum(len(x) for x in scripts)
+        sched = [rng.randrange(nt) for _ in range(rng.randint(total, 3 * total))]
+        return {"kind": "pl", "n": n, "maxage": rng.choice([0, 0, 100]), "vp": rng.choice([1, 1, 2, 2, 3, 5]),
+                "scripts": [[list(o) for o in sc] for sc in scripts], "sched": sched}
 
     def _hijack(self, rng):
         """seed C05-3 class: handlers behind MaxConns that take the connection over; Close() of such a
@@ -527,7 +571,7 @@ class C05(Property):
         if r < 0.27:
             return self._workers(rng)
         if r < 0.37:
-            return rng.choice([self._engine, self._engine, self._hijack, self._pool_stale_put])(rng)
+            return rng.choice([self._engine, self._engine, self._hijack, self._pool_stale_put, self._pool_values])(rng)
         kind = rng.choice(["lim", "lim", "lim", "tr", "tr", "pl", "pl"])
         n = rng.choice([1, 1, 1, 2, 2, 2, 3, 4, 0, 2000] if kind != "pl" else [1, 1, 2, 2, 3, 4])
         nt = rng.randint(1, 6)
@@ -578,6 +622,8 @@ class C05(Property):
                         o[1] = rng.choice(peers + peers + [t])
         total = sum(len(s) for s in c["scripts"])
         c["sched"] = [rng.randrange(actors) for _ in range(rng.randint(total, 3 * total))]
+        if kind == "pl":
+            self._value_policy(rng, c)
         return c
 
     def gen(self, rng, n, tier):
@@ -591,7 +637,7 @@ class C05(Property):
             cases.append(self._pool_overlap(rng))
         for _ in range(max(15, n // 30)):
             cases.append(self._pool_phases(rng))
-        for fam in (self._pool_stale_put, self._hijack, self._engine, self._engine):
+        for fam in (self._pool_stale_put, self._pool_values, self._hijack, self._engine, self._engine):
             for _ in range(max(8, n // 50)):
                 cases.append(fam(rng))
         while len(cases) < n:
@@ -796,6 +842,9 @@ class C05(Property):
         log = self._logs(obs)
         if case.get("ns"):
             fs.append("two_instances")
+        if case["kind"] == "pl":
+            fs.append("values=%s" % ["distinct", "equal_strings", "equal_structs", "nan", "slices", "maps", "funcs",
+                                     "same_int", "empty_struct", "shared_pointer"][case.get("vp", 0)])
         if any(e[2] == 4 for e in log):
             fs.append("has_blocked")
         if case["kind"] in ("lim", "tr") and any(e[2] == 3 and e[4] == 0 for e in log):
